@@ -23,5 +23,12 @@ YOUR TASK: act as a maintainer doing clean-up. Make a BEHAVIOUR-PRESERVING refac
 
 DELIVERABLES inside {d}: the refactoring left UNCOMMITTED in the working tree (`git diff -- src`), and {d}/demo/README.md listing each edit (function, what kind of refactoring) and the commands you ran with results. In your final reply, list the edits briefly.
 """
+import glob, re
+prev = []
+for rp in sorted(glob.glob("/verif/refactors/%sr*/README.md" % pid)) + sorted(glob.glob("/verif/refactors/%s-*/README.md" % pid)):
+    for m in re.finditer(r"^\|[^|]*\|?\s*`([A-Za-z_:]+)`", open(rp).read(), re.M):
+        prev.append(m.group(1))
+if prev:
+    txt += "\nAn earlier clean-up by someone else already touched these functions: " + ", ".join(sorted(set(prev))[:40]) + ". Prefer OTHER functions that are central to the property, and other kinds of refactoring than a plain extract-helper (e.g. change the control-flow shape, the data-access idiom, move responsibilities between modules/types, change a container or a signature, merge or split match arms, replace flags by early returns or vice versa).\n"
 open("/tmp/mw/prompt_%s.txt" % name, "w").write(txt)
 print("/tmp/mw/prompt_%s.txt" % name)
